@@ -28,7 +28,7 @@ def run_patch(patch, plist, jobs):
             vd = os.path.join(tmp, "verif_" + pid)
             os.makedirs(vd)
             shutil.copy(f"{VERIF}/known_findings.json", vd)
-            q = subprocess.run([BIN, "-p", pid, "-repo", tree, "-verif", vd], capture_output=True, text=True, env=env)
+            q = subprocess.run([BIN, "-p", pid, "-repo", tree, "-verif", vd], capture_output=True, text=True, env=env, timeout=600)
             txt = q.stdout + q.stderr
             if q.returncode == 0:
                 return (name, pid, "silent-ok", "")
